@@ -120,3 +120,18 @@ claim("C04", "other", "dominance guard (!= nil) with kill check on every use of 
       "past the last key leaves the iterator invalid. Does NOT decide agreement with a reference sorted map, Seek's exact position, or iterator order.",
       BASE_NOTE,
       "DESIGN.md section 3, C04")
+claim("C11", "other", "provenance of span fields in Edit literals; index-variable side separation; opcode/field table; exhaustiveness of EditOp switches (typed AST)",
+      "Decides structural clauses: every Edit the script builder creates takes X from a slice expression over lhs and Y from one over rhs ('the very spans', which value-comparing "
+      "tests cannot see) and bounds each span with its own side's offsets; every Edit literal in packages slice and mdiff sets exactly the fields documented for its opcode; "
+      "every switch over EditOp in non-test code handles all four opcodes or has a default arm that panics or returns an error. Does NOT decide that applying the script yields "
+      "rhs, minimality (LCS length), canonical form, emptiness iff equal, or exact span bounds.",
+      BASE_NOTE,
+      "DESIGN.md section 3, C11")
+claim("C13", "other", "who-may-write rule on Diff.Edits; provenance/aliasing rules for context spans; guarded in-place append; mirrored-update pairing of left/right ranges",
+      "Decides structural clauses: Diff.Edits is set once by New and nothing in mdiff writes through it; the in-place context merge in Unify happens only between two Emit edits, "
+      "New never puts an Emit edit of the script into a chunk, AddContext's Emit edits have freshly allocated spans and findContext's two results do not share a backing array "
+      "(so merging cannot write into Left, Right, the script or the other span); Unify edits the chunk's own edit list (not local copies) and keeps chunks apart only across a "
+      "strict gap; every update of a chunk's left range has the mirrored update of its right range in the same block. Does NOT decide that ranges and edits describe a correct "
+      "patch; context found by positional comparison across a neighbouring chunk (a data-dependent fault known from earlier dynamic work) has no structural signature.",
+      BASE_NOTE,
+      "DESIGN.md section 3, C13")
